@@ -6,10 +6,15 @@
     list <showAll 0|1> <name> <spacing> <base|E> <n> <spec>*n <mul>*n
     str  <showAll 0|1> <name> <specifiers> <delim> <spacing> <base|E> <m> <mul>*m
         -> ok <style:name> <style:display-name> <nlevels> { <tag> <k> (<attr> <value>)*k <kp> (<attr> <value>)*kp }*   | err ValueError | err IndexError
+    calls <showAll 0|1> <name> <spacing> <base|E> <n> <spec>*n <mul>*n     (same arguments as `list`)
+        -> ok <ncalls> { C <elem id> <k> (<keyword> <attr id> <value>)*k | S <elem id> <keyword> <attr id> <value>
+                         | N <elem id> <attr id> <value> | A <parent id> <child id> }*     | err …
+           the grammar-relevant API calls in program order (EasyList.callsOf); ids of Generated/GrammarNames.lean,
+           keywords as hex code points
   <base> = str(cssLengthNum) and <mul>_k = str(cssLengthNum * k) are computed by the harness with Python's float
   (the model's FloatOracle); `E` = float() raised ValueError.
 -/
-import OdfModel.EasyList
+import OdfModel.EasyListCalls
 open OdfModel OdfModel.EasyList
 
 def showAttrs (l : List (String × Str)) : String :=
@@ -22,6 +27,20 @@ def showLevel (l : Level) : String :=
 def showRes : Except Err ListStyle → String
   | .ok st => "ok " ++ Wire.enc st.name ++ " " ++ Wire.enc st.displayName ++ " " ++ toString st.levels.length ++
       String.join (st.levels.map fun l => " " ++ showLevel l)
+  | .error .valueError => "err ValueError"
+  | .error .indexError => "err IndexError"
+
+def showKw (k : KwArg) : String :=
+  Wire.enc (GrammarNamesCodec.bytes k.kw) ++ " " ++ toString k.attr ++ " " ++ Wire.enc k.value
+
+def showCall : Call → String
+  | .construct e kws => "C " ++ toString e ++ " " ++ toString kws.length ++ String.join (kws.map fun k => " " ++ showKw k)
+  | .setAttribute e k => "S " ++ toString e ++ " " ++ showKw k
+  | .setAttrNS e a v => "N " ++ toString e ++ " " ++ toString a ++ " " ++ Wire.enc v
+  | .addElement p c => "A " ++ toString p ++ " " ++ toString c
+
+def showCalls : Except Err ListStyle → String
+  | .ok st => "ok " ++ toString (callsOf st).length ++ String.join ((callsOf st).map fun c => " " ++ showCall c)
   | .error .valueError => "err ValueError"
   | .error .indexError => "err IndexError"
 
@@ -50,6 +69,13 @@ def handle (line : String) : String :=
     | some n, some name, some spacing =>
       match (rest.take n).mapM Wire.dec, oracle base (rest.drop n) with
       | some specs, some F => showRes (styleFromList F name specs spacing (sa == "1"))
+      | _, _ => "err bad-arg"
+    | _, _, _ => "err bad-arg"
+  | "calls" :: sa :: name :: spacing :: base :: n :: rest =>
+    match n.toNat?, Wire.dec name, Wire.dec spacing with
+    | some n, some name, some spacing =>
+      match (rest.take n).mapM Wire.dec, oracle base (rest.drop n) with
+      | some specs, some F => showCalls (styleFromList F name specs spacing (sa == "1"))
       | _, _ => "err bad-arg"
     | _, _, _ => "err bad-arg"
   | "str" :: sa :: name :: specifiers :: delim :: spacing :: base :: _m :: rest =>
